@@ -19,6 +19,7 @@ import (
 	resourceapi "k8s.io/api/resource/v1"
 	k8sframework "k8s.io/kubernetes/pkg/scheduler/framework"
 
+	schedulingv1alpha2 "github.com/NVIDIA/KAI-scheduler/pkg/apis/scheduling/v1alpha2"
 	"github.com/NVIDIA/KAI-scheduler/pkg/scheduler/api/common_info"
 	"github.com/NVIDIA/KAI-scheduler/pkg/scheduler/api/pod_info"
 	"github.com/NVIDIA/KAI-scheduler/pkg/scheduler/api/pod_status"
@@ -80,6 +81,9 @@ func allocatedSet(mgr k8sframework.SharedDRAManager) ([]string, bool) {
 type claimUser struct {
 	t  *pod_info.PodInfo
 	pc string // pod.spec.resourceClaims[].name
+	// br: the pod's live BindRequest in the snapshot of the session (API object). Taken from the snapshot's request
+	// map, not from PodInfo.BindRequest: PodInfo.Clone() drops that field, and the solvers work on clones.
+	br *schedulingv1alpha2.BindRequest
 }
 
 // claimUsers maps ns/claim to the pods of the session that reference it (workload pods first, then pods that only
@@ -95,7 +99,13 @@ func claimUsers(ssn *framework.Session) map[string][]claimUser {
 		for i := range t.Pod.Spec.ResourceClaims {
 			pc := &t.Pod.Spec.ResourceClaims[i]
 			if n := podClaimName(t.Pod, pc); n != "" {
-				users[t.Namespace+"/"+n] = append(users[t.Namespace+"/"+n], claimUser{t, pc.Name})
+				u := claimUser{t: t, pc: pc.Name}
+				if bri := ssn.ClusterInfo.BindRequests.GetBindRequestForPod(t.Pod); bri != nil {
+					u.br = bri.BindRequest
+				} else if t.BindRequest != nil {
+					u.br = t.BindRequest.BindRequest
+				}
+				users[t.Namespace+"/"+n] = append(users[t.Namespace+"/"+n], u)
 			}
 		}
 	}
@@ -122,10 +132,10 @@ func effectiveClaim(mgr k8sframework.SharedDRAManager, c *resourceapi.ResourceCl
 		return devs, reserved, false
 	}
 	for _, u := range users {
-		if u.t.BindRequest == nil || u.t.BindRequest.BindRequest == nil {
+		if u.br == nil {
 			continue
 		}
-		for _, ra := range u.t.BindRequest.BindRequest.Spec.ResourceClaimAllocations {
+		for _, ra := range u.br.Spec.ResourceClaimAllocations {
 			if ra.Name == u.pc && ra.Allocation != nil {
 				devs = devIDs(ra.Allocation)
 				id := "pods:" + u.t.Pod.Name + ":" + string(u.t.Pod.UID)
@@ -306,8 +316,8 @@ func CheckClaims(ssn *framework.Session, st map[string]int) []string {
 				// a pod that is being bound uses the devices its BindRequest (API object) names, unless the claim was
 				// already allocated (then the binder keeps the existing allocation, compared above)
 				if ac := api[k]; ac != nil && ac.Status.Allocation == nil && len(devs) > 0 && t.Status == pod_status.Binding &&
-					t.BindRequest != nil && t.BindRequest.BindRequest != nil {
-					for _, ra := range t.BindRequest.BindRequest.Spec.ResourceClaimAllocations {
+					u.br != nil {
+					for _, ra := range u.br.Spec.ResourceClaimAllocations {
 						if ra.Name == u.pc && ra.Allocation != nil {
 							st["claim_api_allocation_comparisons"]++
 							if want := devIDs(ra.Allocation); strings.Join(want, ",") != strings.Join(devs, ",") {
@@ -330,7 +340,7 @@ func CheckClaims(ssn *framework.Session, st map[string]int) []string {
 				// claim controller removes it. (PodInfo.IsVirtualStatus is set after the event handlers ran, so it cannot
 				// be used inside a handler.)
 				mayHold++
-			case inFlight && t.BindRequest != nil:
+			case inFlight && u.br != nil:
 				// the pod of an in-flight BindRequest was (virtually) evicted: the manager offers no way to withdraw an
 				// in-flight allocation, the device stays taken until the request is gone - not judged
 				mayHold++
